@@ -52,10 +52,17 @@ impl Observer<Val, i64> for Probe {
   }
 }
 
+/// event `rinner`: something to do on ANOTHER thread while the probe is inside a delivery (taken by the first call)
+static RACE: Mutex<Option<Box<dyn FnOnce() + Send>>> = Mutex::new(None);
+
 struct ProbeT(Arc<Mutex<Vec<Notif>>>);
 impl Observer<Val, i64> for ProbeT {
   fn next(&mut self, v: Val) {
     self.0.lock().unwrap().push(Notif::Next(v));
+    let h = RACE.lock().unwrap().take();
+    if let Some(h) = h {
+      h()
+    }
   }
   fn error(self, e: i64) {
     self.0.lock().unwrap().push(Notif::Error(e));
@@ -314,6 +321,53 @@ macro_rules! impl_flatten {
               Notif::Next(v) => s.next(v),
               Notif::Error(e) => s.error(e),
               Notif::Complete => s.complete(),
+            }
+          }
+          "rinner" => {
+            // inner ev[1] emits ev[2] on this thread; while the probe is called for it, inner ev[3] emits ev[4] on another
+            // thread (thread-safe flavour; the local one never gets this event)
+            let first = (ev[1].nat(), Notif::parse(&ev[2]));
+            let second = (ev[3].nat(), Notif::parse(&ev[4]));
+            let s2 = Kept(ctx.subject(second.0));
+            let n2 = second.1.clone();
+            let started = Arc::new(std::sync::atomic::AtomicBool::new(false));
+            let slot: Arc<Mutex<Option<std::thread::JoinHandle<()>>>> = Arc::new(Mutex::new(None));
+            let (st2, slot2) = (started.clone(), slot.clone());
+            *RACE.lock().unwrap() = Some(Box::new(move || {
+              let st3 = st2.clone();
+              let h = std::thread::spawn(move || {
+                let mut s = s2.get();
+                st3.store(true, std::sync::atomic::Ordering::SeqCst);
+                match n2 {
+                  Notif::Next(v) => s.next(v),
+                  Notif::Error(e) => s.error(e),
+                  Notif::Complete => s.complete(),
+                }
+              });
+              while !st2.load(std::sync::atomic::Ordering::SeqCst) {
+                std::thread::yield_now();
+              }
+              std::thread::sleep(Duration::from_millis(40));
+              *slot2.lock().unwrap() = Some(h);
+            }));
+            {
+              let mut s = ctx.subject(first.0);
+              match first.1 {
+                Notif::Next(v) => s.next(v),
+                Notif::Error(e) => s.error(e),
+                Notif::Complete => s.complete(),
+              }
+            }
+            let unused = RACE.lock().unwrap().take();
+            if unused.is_some() {
+              let mut s = ctx.subject(second.0);
+              match second.1 {
+                Notif::Next(v) => s.next(v),
+                Notif::Error(e) => s.error(e),
+                Notif::Complete => s.complete(),
+              }
+            } else if let Some(h) = slot.lock().unwrap().take() {
+              let _ = h.join();
             }
           }
           "unsub" => {
